@@ -793,3 +793,10 @@ func (w *Worker) deadlocked(desc string) {
 }
 
 func sortInts(a []int) { sort.Ints(a) }
+
+// fatal: an error of the Go runtime that no recover can catch (the process dies).
+func (w *Worker) fatal(fr *frame, msg string) {
+	site := fr.fn.String()
+	w.reportPathViolation(msg, site, fr.stack())
+	panic(abortPath{"fatal error"})
+}
